@@ -202,8 +202,11 @@ func (ts *Timers) changed() {
 		return
 	}
 	if m.State != nil && m.State.Bs != nil {
-		// Keep the timers machine's own state current.
+		// Keep the timers machine's own state current, and
+		// report that state: its node and whatever else it has
+		// bound (say the "error" of a request that failed).
 		m.State.Bs["timers"] = st.Bs["timers"]
+		st = m.State.Copy()
 	}
 	ts.c.change(TimersMachine).State = st
 }
